@@ -151,6 +151,30 @@ pub fn decoder_families<V: Fv, W: Fv>(seed: u64, thorough: bool, out: &mut Shard
             }
         }
     }
+    // lane sweeps: the edited field at every position of the first and the last 8 coefficients (an unrolled decoder handles 4 or 8
+    // fields per group of bytes; a slip in one lane shows only when the edited field sits in that lane)
+    for i in (0..8).chain(n - 8..n) {
+        for &val in &[12289u32, 16383] {
+            let mut b = pkb.clone();
+            set_bits(&mut b, 8 + 14 * i, 14, val);
+            out.emit(decode_event::<V>("pk", &b, "pk-field-lane"));
+        }
+        for &(start, w, _name) in &polys {
+            let mut b = skb.clone();
+            set_bits(&mut b, start + w * i, w, 1u32 << (w - 1));
+            out.emit(decode_event::<V>("sk", &b, "sk-field-lane"));
+        }
+    }
+    // secret keys whose f has SOME zero NTT coefficients (not all): f = 1 + x^(n/2) vanishes at half of the roots
+    {
+        let mut fz = vec![0i16; n];
+        fz[0] = 1;
+        fz[n / 2] = 1;
+        let one = { let mut v = vec![0i16; n]; v[0] = 1; v };
+        let g: Vec<i16> = (0..n).map(|i| ((i * 7) % 5) as i16 - 2).collect();
+        out.emit(decode_event::<V>("sk", &sk_bytes(&fz, &g, &one, V::LOGN, wfg, 8), "sk-f-partly-zero-ntt"));
+        out.emit(decode_event::<V>("sk", &sk_bytes(&g, &fz, &fz, V::LOGN, wfg, 8), "sk-g-partly-zero-ntt"));
+    }
     // secret keys with a non-invertible f (all-zero f; f = 2 everywhere is fine) and with f = g
     {
         let zero = vec![0i16; n];
@@ -166,6 +190,61 @@ pub fn decoder_families<V: Fv, W: Fv>(seed: u64, thorough: bool, out: &mut Shard
         b[k] ^= 1 << rng.gen_range(0..8);
         out.emit(decode_event::<V>("sig", &b, "sig-bitflip"));
     }
+}
+
+/// verify on an honest (or at least decodable) signature under conditions that stress its own buffers: very long messages, and
+/// salt || message strings whose SHAKE stream has unusually many rejected chunks (found by a native search).  Recorded as decode
+/// events of the signature with the outcome of THAT verify call; a panic never conforms.
+pub fn verify_totality<V: Fv>(seed: u64, thorough: bool, out: &mut Shards) {
+    use sha3::digest::{ExtendableOutput, Update, XofReader};
+    let (sk, pk) = V::keygen([11u8; 32]);
+    let outcome = |msg: &[u8], sigb: &[u8]| -> &'static str {
+        match guarded(|| V::sig_from_bytes(sigb).map(|s| V::verify(msg, &s, &pk))) {
+            Outcome::Ret(Ok(true)) => "true",
+            Outcome::Ret(Ok(false)) => "false",
+            Outcome::Ret(Err(_)) => "na",
+            Outcome::Panic(_) => "panic",
+        }
+    };
+    let mut lens = vec![4096usize, 65495, 65496, 65497, 1 << 20];
+    if thorough {
+        lens.extend([65535, 65536, 65537, 1 << 24]);
+    }
+    for l in lens {
+        let msg: Vec<u8> = (0..l).map(|i| (i * 131 % 251) as u8).collect();
+        let sigb = match guarded(|| V::sig_to_bytes(&V::sign(&msg, &sk))) {
+            Outcome::Ret(b) => b,
+            Outcome::Panic(_) => V::sig_to_bytes(&V::sign(b"x", &sk)),
+        };
+        let mut ev = decode_event::<V>("sig", &sigb, "verify-long-message");
+        ev["verify"] = json!(outcome(&msg, &sigb));
+        ev["detail"] = json!(format!("message of {} bytes", l));
+        out.emit(ev);
+    }
+    // most rejected chunks
+    let hsig = V::sig_to_bytes(&V::sign(b"body donor", &sk));
+    let mut best: (usize, Vec<u8>) = (0, vec![]);
+    for ctr in 0..(if thorough { 3_000_000u64 } else { 200_000 }) {
+        let s = format!("most-rejects-verify-{:020}-{:020}-{}", seed, ctr, V::N).into_bytes();
+        let mut h = sha3::Shake256::default();
+        h.update(&s);
+        let mut rd = h.finalize_xof();
+        let (mut got, mut rej) = (0usize, 0usize);
+        let mut buf = [0u8; 2];
+        while got < V::N {
+            rd.read(&mut buf);
+            if (((buf[0] as u32) << 8) | buf[1] as u32) < 61445 { got += 1 } else { rej += 1 }
+        }
+        if rej > best.0 {
+            best = (rej, s);
+        }
+    }
+    let mut sigb = hsig.clone();
+    sigb[1..41].copy_from_slice(&best.1[..40]);
+    let mut ev = decode_event::<V>("sig", &sigb, "verify-most-rejected-chunks");
+    ev["verify"] = json!(outcome(&best.1[40..], &sigb));
+    ev["detail"] = json!(format!("{} rejected chunks", best.0));
+    out.emit(ev);
 }
 
 /// Native volume fuzz of the three decoders (and re-encoding on acceptance): summary event.
@@ -188,6 +267,28 @@ pub fn decoder_bulk<V: Fv>(seed: u64, cases: u64, out: &mut Shards) {
             for k in 1..b.len() {
                 if k % 7 != 3 {
                     b[k] &= 0x5f;
+                }
+            }
+        }
+        if t == 0 && i % 4 == 1 && b.len() == lens[0] {
+            // every 14-bit field drawn below q (one in 64 cases: one field anywhere in [0, 2^14)): accepted keys are plentiful
+            for k in 0..V::N {
+                let v = if i % 256 == 1 && k == (i as usize / 256) % V::N { rng.gen_range(0..16384u32) } else { rng.gen_range(0..12289u32) };
+                set_bits(&mut b, 8 + 14 * k, 14, v);
+            }
+        }
+        if t == 1 && i % 4 == 1 && b.len() == lens[1] {
+            // secret-key fields drawn among the non-reserved patterns (one in 64 cases: one field fully random)
+            let wfg = if V::N == 512 { 6 } else { 5 };
+            let mut pos = 8;
+            for (w, cnt) in [(wfg, 2 * V::N), (8usize, V::N)] {
+                for k in 0..cnt {
+                    let mut v = rng.gen_range(0..(1u32 << w));
+                    if v == 1 << (w - 1) && !(i % 256 == 1 && k == (i as usize / 256) % cnt) {
+                        v = 0;
+                    }
+                    set_bits(&mut b, pos, w, v);
+                    pos += w;
                 }
             }
         }
@@ -221,6 +322,8 @@ pub fn decoders(args: &Args) {
     let mut out = Shards::create(&dir, "decode", args.num("--shards", 12) as usize);
     decoder_families::<V512, V1024>(seed, args.thorough(), &mut out);
     decoder_families::<V1024, V512>(seed, args.thorough(), &mut out);
+    verify_totality::<V512>(seed, args.thorough(), &mut out);
+    verify_totality::<V1024>(seed, args.thorough(), &mut out);
     let bulk = args.num("--bulk", 20000);
     decoder_bulk::<V512>(seed, bulk, &mut out);
     decoder_bulk::<V1024>(seed, bulk, &mut out);
